@@ -296,6 +296,19 @@ pub fn run(ctx: &Ctx) {
         rt(ctx, "Option<String>", &os);
         let oi: Option<i64> = Some(gen_i64(&mut rng));
         rt(ctx, &format!("Option<i64>/{}", width_class_i(oi.unwrap() as i128)), &oi);
+        // options of containers, empty ones included ("present but empty" is not "absent")
+        let ov: Option<Vec<i32>> = match rng.below(4) { 0 => None, 1 => Some(vec![]), _ => Some((0..rng.below(4)).map(|_| gen_i64(&mut rng) as i32).collect()) };
+        rt(ctx, match &ov { None => "Option<Vec<i32>>/none", Some(v) if v.is_empty() => "Option<Vec<i32>>/some-empty", _ => "Option<Vec<i32>>/some" }, &ov);
+        let ovs: Option<Vec<String>> = match rng.below(3) { 0 => None, 1 => Some(vec![]), _ => Some(vec![gen_string(&mut rng)]) };
+        rt(ctx, if matches!(&ovs, Some(v) if v.is_empty()) { "Option<Vec<String>>/some-empty" } else { "Option<Vec<String>>" }, &ovs);
+        let oes: Option<String> = if rng.bool() { Some(String::new()) } else { None };
+        rt(ctx, "Option<String>/empty-or-none", &oes);
+        let om: Option<std::collections::BTreeMap<String, i32>> = match rng.below(3) { 0 => None, 1 => Some(Default::default()), _ => Some([(gen_string(&mut rng), 1)].into_iter().collect()) };
+        rt(ctx, if matches!(&om, Some(m) if m.is_empty()) { "Option<BTreeMap>/some-empty" } else { "Option<BTreeMap>" }, &om);
+        let vov: Vec<Option<Vec<u8>>> = (0..rng.below(4)).map(|_| match rng.below(3) { 0 => None, 1 => Some(vec![]), _ => Some(vec![1, 2]) }).collect();
+        rt(ctx, "Vec<Option<Vec<u8>>>", &vov);
+        let ot: Option<(Vec<i32>, Vec<String>)> = Some((vec![], vec![]));
+        rt(ctx, "Option<(Vec,Vec)>/empty", &ot);
         rt(ctx, "tuple2", &(gen_i64(&mut rng) as i32, gen_string(&mut rng)));
         rt(ctx, "tuple3", &(rng.next_u32() as u8, rng.next_u32() as u8, rng.bool()));
         rt(ctx, "tuple1", &(gen_i64(&mut rng) as i16,));
